@@ -842,6 +842,8 @@ enum Obj {
     File(compio_fs::File),
     Unix(compio_net::UnixStream),
     Tcp(compio_net::TcpStream),
+    /// `compio_runtime::fd::AsyncFd<OwnedFd>` (Attacher + SharedFd); "close" = `into_inner().take()` (no ManuallyDrop wrapper)
+    Afd(compio_runtime::fd::AsyncFd<std::os::fd::OwnedFd>),
 }
 
 impl Obj {
@@ -850,6 +852,7 @@ impl Obj {
             Obj::File(f) => f.as_raw_fd(),
             Obj::Unix(f) => f.as_raw_fd(),
             Obj::Tcp(f) => f.as_raw_fd(),
+            Obj::Afd(f) => f.as_raw_fd(),
         }
     }
 
@@ -863,6 +866,7 @@ impl Obj {
             Obj::File(f) => p(f.to_shared_fd()),
             Obj::Unix(f) => p(f.to_shared_fd()),
             Obj::Tcp(f) => p(f.to_shared_fd()),
+            Obj::Afd(f) => p(f.to_shared_fd()),
         }
     }
 
@@ -871,6 +875,15 @@ impl Obj {
             Obj::File(f) => Box::pin(f.close()),
             Obj::Unix(f) => Box::pin(f.close()),
             Obj::Tcp(f) => Box::pin(f.close()),
+            Obj::Afd(f) => {
+                // `take()` is called NOW (the future captures the raw `Shared`, model event `take`); the descriptor is
+                // closed by dropping the `OwnedFd` the future hands out
+                let t = compio_buf::IntoInner::into_inner(f).take();
+                Box::pin(async move {
+                    drop(t.await);
+                    Ok(())
+                })
+            }
         }
     }
 
@@ -881,6 +894,7 @@ impl Obj {
             Obj::File(f) => Box::pin(async move { f.read_at(Vec::with_capacity(1), 0).await.0 }),
             Obj::Unix(f) => Box::pin(async move { (&f).read(Vec::with_capacity(1)).await.0 }),
             Obj::Tcp(f) => Box::pin(async move { (&f).read(Vec::with_capacity(1)).await.0 }),
+            Obj::Afd(f) => Box::pin(async move { (&f).read(Vec::with_capacity(1)).await.0 }),
         }
     }
 }
@@ -942,6 +956,12 @@ impl<'a> RtWorld<'a> {
             "unix" => {
                 let (a, b) = std::os::unix::net::UnixStream::pair().unwrap();
                 (Obj::Unix(compio_net::UnixStream::from_std(a).unwrap()), Peer::Unix(b))
+            }
+            "afd" => {
+                let (a, b) = std::os::unix::net::UnixStream::pair().unwrap();
+                a.set_nonblocking(true).unwrap();
+                let fd = std::os::fd::OwnedFd::from(a);
+                (Obj::Afd(compio_runtime::fd::AsyncFd::new(fd).unwrap()), Peer::Unix(b))
             }
             "tcp" => {
                 let (a, b) = tcp_pair();
@@ -1217,7 +1237,9 @@ impl<'a> RtWorld<'a> {
                 *fut = None;
                 *parked = false;
                 rawish = true;
-                if unpolled {
+                if unpolled && self.kind != "afd" {
+                    // File/Socket::close: the handle sits in ManuallyDrop (F8c). A bare `take()` future (afd) owns
+                    // the raw `Shared` and releases it when dropped.
                     self.dropped_unpolled_close = true;
                     self.leaked_refs += 1;
                 }
@@ -1265,7 +1287,7 @@ impl<'a> RtWorld<'a> {
     }
 
     fn finish(mut self, ex: &mut Exec) {
-        if self.actors.iter().any(|a| matches!(a, RActor::Closer { fut: Some(_), polled: false, .. })) {
+        if self.kind != "afd" && self.actors.iter().any(|a| matches!(a, RActor::Closer { fut: Some(_), polled: false, .. })) {
             self.dropped_unpolled_close = true;
         }
         self.actors.clear();
@@ -2308,7 +2330,7 @@ fn generate(tier: &str, rng: &mut Rng) -> Vec<Case> {
     let n_rt = if quick { 700 } else { 12000 };
     for i in 0..n_rt {
         let drv = if i % 2 == 0 { "iour" } else { "poll" };
-        let kind = *rng.pick(&["file", "unix", "tcp", "unix"]);
+        let kind = *rng.pick(&["file", "unix", "tcp", "unix", "afd", "afd"]);
         let mut sh = ShadowRt::new();
         let mut lines = vec![format!("rt {drv} {kind}")];
         let len = rng.range(3, 12);
@@ -2335,7 +2357,7 @@ fn generate(tier: &str, rng: &mut Rng) -> Vec<Case> {
     }
     // hand-picked shapes (findings and their neighbours), every driver x kind
     for drv in ["iour", "poll"] {
-        for kind in ["file", "unix", "tcp"] {
+        for kind in ["file", "unix", "tcp", "afd"] {
             for (j, prog) in [
                 vec!["clone 0", "close 0", "poll 0", "close 1", "poll 1"],
                 vec!["clone 0", "close 0", "poll 0", "close 1", "dropfut 1"],
